@@ -234,6 +234,7 @@ func (j *Join) JoinFunc(l, r *HashedTable) ([]any, error) {
 func (j *Join) ParallelJoinFunc(l, r *HashedTable) ([]any, error) {
 	var mut sync.Mutex
 	var wg sync.WaitGroup
+	var failure error
 	slice := make([]any, 0)
 
 	for lk, lv := range l.Keys {
@@ -249,7 +250,12 @@ func (j *Join) ParallelJoinFunc(l, r *HashedTable) ([]any, error) {
 				}
 			case !ok && err != nil:
 				{
-					panic(err)
+					// reported to the caller after all workers are done
+					mut.Lock()
+					if failure == nil {
+						failure = err
+					}
+					mut.Unlock()
 				}
 			default:
 				{
@@ -259,6 +265,9 @@ func (j *Join) ParallelJoinFunc(l, r *HashedTable) ([]any, error) {
 		}(lk, lv)
 	}
 	wg.Wait()
+	if failure != nil {
+		return nil, failure
+	}
 	return slice, nil
 }
 
@@ -329,6 +338,7 @@ func (j *Join) JoinMatchFunc(lk string, lv *map[string]any, l, r *HashedTable) (
 func (j *Join) ParallelHashJoinFunc(l, r *HashedTable) ([]any, error) {
 	var mut sync.Mutex
 	var wg sync.WaitGroup
+	var failure error
 	slice := make([]any, 0)
 	for lk := range l.Rows {
 		wg.Add(1)
@@ -343,7 +353,12 @@ func (j *Join) ParallelHashJoinFunc(l, r *HashedTable) ([]any, error) {
 				}
 			case !ok && err != nil:
 				{
-					panic(err)
+					// reported to the caller after all workers are done
+					mut.Lock()
+					if failure == nil {
+						failure = err
+					}
+					mut.Unlock()
 				}
 			default:
 				{
@@ -353,6 +368,9 @@ func (j *Join) ParallelHashJoinFunc(l, r *HashedTable) ([]any, error) {
 		}(lk)
 	}
 	wg.Wait()
+	if failure != nil {
+		return nil, failure
+	}
 	return slice, nil
 }
 
